@@ -198,6 +198,7 @@ def apply_shape(clsname, fn):
     idx_check = idx_map = idx_out = idx_ret = None
     bound_ok = False
     map_args_ok = True
+    out_sizes = []
     for k, st in enumerate(body):
         for c in calls_in(st):
             f = ast.unparse(c.func)
@@ -209,6 +210,7 @@ def apply_shape(clsname, fn):
                 if idx_map is None:
                     idx_map = k
                 kw = {x.arg: ast.unparse(x.value) for x in c.keywords if x.arg}
+                out_sizes.append(f.split(".")[-1] + ":" + kw.get("output_size", ast.unparse(c.args[1]) if len(c.args) > 1 else "?"))
                 if not (kw.get("obs") == "obs" and kw.get("cm_hist") == "cm_hist" and kw.get("cm_future") == "cm_future"):
                     map_args_ok = False
                 if not (c.args and ast.unparse(c.args[0]) == "self.apply_location"):
@@ -231,7 +233,8 @@ def apply_shape(clsname, fn):
     before = idx_check is not None and idx_map is not None and idx_check < idx_map
     used = bound_ok and map_args_ok and not rebinding
     outchk = idx_out is not None and idx_map is not None and idx_ret is not None and idx_map < idx_out < idx_ret
-    return f"⟨{lstr(clsname)}, {lbool(post_first)}, {lbool(before)}, {lbool(used)}, {lbool(outchk)}⟩"
+    sizes = "[" + ", ".join(lstr(x) for x in out_sizes) + "]"
+    return f"⟨{lstr(clsname)}, {lbool(post_first)}, {lbool(before)}, {lbool(used)}, {lbool(outchk)}, {sizes}⟩"
 
 
 def all_apply_shapes(repo):
